@@ -27,18 +27,21 @@ Definition rshift_fmt_codes (m : shmode) (f : fmt) (codes : list Z) (n : Z) : ou
   | ShKeep => Ok (f, map (fun c => Z.shiftr c n) codes)
   end.
 
-(* x << n: the word grows by the bit length of the largest magnitude (float log2 formula) *)
+(* x << n: the word grows to hold the largest magnitude shifted by n.  The bits a code needs are counted exactly on Python
+   integers (fix of the float log2 formula): v.bit_length() for v >= 0, (~v).bit_length() for v < 0 *)
+Definition py_bits (v : Z) : Z := if 0 <=? v then bitlen v else bitlen (- v - 1).
 Definition lshift_fmt (m : shmode) (f : fmt) (codes : list Z) (n : Z) : fmt :=
   match m with
   | ShExpand =>
-      let bl := fold_right Z.max (-1) (map np_bitlen_half codes) in
+      let bl := fold_right Z.max 0 (map py_bits codes) in
       {| sg := sg f; nw := Z.max (nw f) (bl + (if sg f then 1 else 0) + n); nf := nf f |}
   | ShKeep => f
   end.
 (* the shifted raw value is stored with set_val(raw=True) under the DEFAULT configuration of a
-   new object (trunc, saturate); the int64 shift wraps beyond 64 bits *)
+   new object (trunc, saturate) *)
 Definition lshift_raw (f : fmt) (c n : Z) : Z :=
-  if 64 <=? nw f then Z.shiftl c n else if sg f then wrap_i64 (Z.shiftl c n) else wrap_u64 (Z.shiftl c n).
+  if 64 <=? nw f + n then Z.shiftl c n       (* the raw array is cast to Python integers when n_word + n >= 64 *)
+  else if sg f then wrap_i64 (Z.shiftl c n) else wrap_u64 (Z.shiftl c n).
 Definition fxp_lshift (m : shmode) (f : fmt) (c n : Z) : outcome (fmt * wres) :=
   let f' := lshift_fmt m f [c] n in
   bind (set_val_real f' Trunc Saturate true (raw_arr f' (lshift_raw f c n)) VInt) (fun w => Ok (f', w)).
